@@ -122,14 +122,34 @@ func outboundKeys() map[string]*idp.KeyPair {
 	obOnce.Do(func() {
 		w := world.Get()
 		nb, na := world.T0.Add(-24*time.Hour), world.T0.Add(24*time.Hour)
-		obKeys = map[string]*idp.KeyPair{
-			"encField": w.SP, "encSetter": w.SP2, "signField": w.SPSign, "signSetter": w.SPSign2,
-			"encSetterEC":  idp.Cert(idp.ECKey("spencEC"), "sp-enc-ec", nb, na),
-			"signSetterEC": idp.Cert(idp.ECKey("spsignEC"), "sp-sign-ec", nb, na),
+		// The certificates of this family end in octets that careless handling of "blank" data would eat: ASCII
+		// white space (0x20, 0x0A, 0x09 ...) or 0x00. A certificate is opaque DER; what is published or embedded must
+		// be the configured octets, all of them. (Certificates are re-issued over the same keys until the last octet
+		// of the signature, which is the last octet of the DER, falls into the wanted class.)
+		edge := func(kp *idp.KeyPair, cn string, want func(byte) bool) *idp.KeyPair {
+			for i := 0; i < 20000; i++ {
+				c := idp.Cert(kp.Key, fmt.Sprintf("%s-%d", cn, i), nb, na)
+				if want(c.DER[len(c.DER)-1]) {
+					return c
+				}
+			}
+			orch.Fatal("outbound: could not mint a certificate with the wanted last octet")
+			return nil
 		}
+		ws := func(b byte) bool { return b == 0x20 || (b >= 0x09 && b <= 0x0d) }
+		nul := func(b byte) bool { return b == 0 }
+		obKeys = map[string]*idp.KeyPair{
+			"encField": edge(w.SP, "sp-enc", ws), "encSetter": edge(w.SP2, "sp-enc-2", nul), "signField": edge(w.SPSign, "sp-sign", nul), "signSetter": edge(w.SPSign2, "sp-sign-2", ws),
+			"encSetterEC":  edge(idp.Cert(idp.ECKey("spencEC"), "sp-enc-ec", nb, na), "sp-enc-ec", ws),
+			"signSetterEC": edge(idp.Cert(idp.ECKey("spsignEC"), "sp-sign-ec", nb, na), "sp-sign-ec", nul),
+		}
+		obAlias = map[string]string{string(w.SP.DER): "encField", string(w.SP2.DER): "encSetter", string(w.SPSign.DER): "signField", string(w.SPSign2.DER): "signSetter"}
 	})
 	return obKeys
 }
+
+// obAlias: the same keys under the certificates the rest of the harness uses for them
+var obAlias map[string]string
 
 // keyName maps a DER certificate back to its role name.
 func keyName(der []byte) string {
@@ -140,6 +160,9 @@ func keyName(der []byte) string {
 		if bytes.Equal(k.DER, der) {
 			return strings.TrimSuffix(n, "EC")
 		}
+	}
+	if n, ok := obAlias[string(der)]; ok {
+		return n
 	}
 	return "unknown"
 }
@@ -177,6 +200,13 @@ func strFor(class string, rng *rand.Rand, base string) string {
 		return GenXMLString(rng, 2, 8) + base + GenXMLString(rng, 2, 8)
 	case "nonascii":
 		return base + GenXMLString(rng, 3, 10)
+	case "blank":
+		// set, but nothing to see: white space only (distinct per setting, so that values cannot be confused)
+		n := 0
+		for _, c := range base {
+			n += int(c)
+		}
+		return []string{" ", "\t", "  ", " \n", "\n ", "\t "}[n%6] + strings.Repeat(" ", n%3)
 	default:
 		return base + GenXMLString(rng, 5, 10) + GenXMLString(rng, 4, 8)
 	}
